@@ -97,6 +97,8 @@ class PhysGen:
             return Op(kind, ["mv", "-i", oid] + srcs + ["--", dst], oid)
         if kind in ("rm", "reset"):
             ps = [rng.choice(pool) for _ in range(rng.choice([1, 2]))]
+            if rng.random() < 0.15:
+                ps = [rng.choice(["/", "//", ""])]      # the object root as the path to remove / reset
             return Op(kind, [kind] + (["-r"] if rng.random() < 0.5 else []) + [oid] + ps, oid)
         if kind == "resetall":
             return Op(kind, ["reset", oid], oid)
